@@ -213,10 +213,12 @@ def generate_dependent_dispatch(tup, handlers, next_call, slf, name, err, nerr):
                         for h, types in handlers
                     ]
                     keyed = reduce(lambda a, b: {**a, **b}, all_keys)
-                    if (
-                        len(keyed) == sum(map(len, all_keys))
-                        and len(featured) < 4
-                    ):
+                    if len(keyed) != sum(map(len, all_keys)):
+                        # Some key belongs to several handlers: they can match
+                        # at once, which only the counting strategy detects
+                        exclusive = False
+                        keyexpr = keyed = None
+                    elif len(featured) < 4:
                         exclusive = True
                         keyexpr = None
                     else:
